@@ -15,6 +15,15 @@ ASSUMPTIONS = ['solver = shim (z3 -dimacs / DPLL) when python-sat is absent: any
                'gate-to-variable map is not observable: strict check under the allocation model, else mapping-free exactness']
 
 
+def design(tier, seed):
+    from .. import tlc
+
+    r = tlc.run_model('GateLemmas', 'GateLemmas.cfg', workers=8, tag='C05-lemma', xmx='4g')
+    tlc.cleanup(r['workdir'])
+    return {'states': r['distinct'], 'transitions': r['generated'],
+            'runs': [f'GateLemmas (gate tables, arity <= 4): {r["distinct"]} states, {r["wall_s"]:.1f}s']}
+
+
 def sources(tier, seed, ctx):
     rng = random.Random(seed + 5)
     nets, st = gen.universe(2, 2, gen.ALL18, 3, tag='C05-U')
